@@ -921,8 +921,9 @@ static int write_table(void *context, cif_value_tp *table_value) {
                         SET_RESULT(CIF_ERROR);
                     } else if ((result = write_char(context, kv, CIF_FALSE)) != CIF_OK) {
                         SET_RESULT(result);
-                    } else if (write_literal(context, ":", 1, CIF_NOWRAP) != 1) {
-                        SET_RESULT(CIF_ERROR);
+                    } else if ((result = write_literal(context, ":", 1, CIF_NOWRAP)) != 1) {
+                        /* a key that leaves no room for its colon cannot be written as a table key */
+                        SET_RESULT((result == -CIF_OVERLENGTH_LINE) ? CIF_DISALLOWED_VALUE : CIF_ERROR);
                     } else {
                         if ((result = write_item(NULL, value, context)) > 0) {
                             /* an error code */
